@@ -153,7 +153,7 @@ def c_forall(pred_):
 
 
 contract(M + "ScenarioContainer.compute_status", params={"self": "ref:ScenarioContainer"},
-         self_classes=["Feature", "Rule"], result="Status", props=P,
+         self_classes=["Feature", "Rule"], result="Status", props=P + ["C09:skipped-iff-all-skipped"],
          modifies=["*._cached_status"],
          loops=[Loop(invariant={
              "skipped-iff-all-earlier-skipped":
@@ -202,7 +202,7 @@ def o_forall(pred_):
 
 
 contract(M + "ScenarioOutline.compute_status", params={"self": "ref:ScenarioOutline"},
-         self_classes=["ScenarioOutline"], result="Status", props=P,
+         self_classes=["ScenarioOutline"], result="Status", props=P + ["C09:skipped-iff-all-skipped"],
          modifies=["*._cached_status"],
          loops=[Loop(invariant={
              "skipped-count": "0 <= skipped_count <= _i and ((skipped_count == _i) == "
@@ -248,6 +248,13 @@ prop("C03", level="proof",
               MC + "TagAndStatusStatement.status", M + "Scenario.compute_status",
               M + "ScenarioContainer.compute_status", M + "ScenarioOutline.compute_status"],
      explanation="status predicates / inner-to-outer tables proved for every enum member; the three "
-                 "compute_status roll-ups proved with loop invariants for child sequences of any length",
+                 "compute_status roll-ups proved with loop invariants for child sequences of any length; the "
+                 "status cache (`.status` keeps a final value) is empty or explicitly set when ScenarioOutline.run / "
+                 "ScenarioContainer.run return, whatever the child runs left in it (a hook reading a container's status "
+                 "between two children must not freeze it); Scenario.run resets the run-time state first (latest run only). "
+                 "Bounded: real runs with hooks reading every status at every hook invocation == the same runs with passive hooks",
      notes=["childless elements are out of scope (property text)",
+            "in the run contracts the child runs may write any element's status cache (over-approximates hooks that read "
+            ".status mid-run); user hooks called directly by a container are assumed not to write caches (reads after the "
+            "children finished cache the right value)",
             "error-vs-failed precedence when both occur is not constrained (property is silent)"])
